@@ -27,8 +27,11 @@ DESCR = {
     "frame_check_sequence": "the last two octets, high octet first",
     "as_bytes": "a copy of all frame octets",
     "__len__": "the number of octets",
+    "is_good_ffc": "the truth value of the FCS register test (one condition on the octets)",
+    "is_valid": "is_good_ffc and is_expected_length",
 }
 RULE = {n: "R3" for n in ("frame_format", "frame_length", "frame_format_type", "segmentation", "is_expected_length")}
+RULE.update({"is_good_ffc": "R1", "is_valid": "R1"})
 
 
 def reference(name, o, n, d, s):
@@ -141,7 +144,13 @@ def _frame_worlds(M, FRAME, HEADER):
                 return ("undecided", f"HdlcFrame() outside the interpreted subset: {ex}")
             for n in range(0, total + 1):
                 if n > 0:
-                    r = A.apply(M.find_method(FRAME, "append"), [frame, octs[n - 1]])
+                    # conditions append() itself tests on the octets (state kept by the frame / header that depends on them) are taken as true: the
+                    # public accessors are then checked on that state for every valuation of what *they* test
+                    A.oracle = lambda term: True
+                    try:
+                        r = A.apply(M.find_method(FRAME, "append"), [frame, octs[n - 1]])
+                    finally:
+                        A.oracle = None
                     if r[0] in ("undecided", "branch"):
                         return ("undecided", f"HdlcFrame.append outside the interpreted subset (octet {n - 1}, addresses of {d}+{s} octets): {r[1]}")
                     if r[0] == "raise":
@@ -153,9 +162,29 @@ def _frame_worlds(M, FRAME, HEADER):
                     for name in names:
                         fn = M.find_method(FRAME if obj is frame else HEADER, name)
                         r = A.apply(fn, [obj])
-                        if r[0] == "undecided" or r[0] == "branch":
-                            return ("undecided", f"{name} outside the interpreted subset (n={n}, addresses {d}+{s}): {r[1]!r}")
                         want = reference(name, octs, n, d, s)
+                        if r[0] == "branch":
+                            # the accessor tests a predicate on the octets: its value as a function of the predicates it asks
+                            outs = run_all_valuations(A, fn, [obj], terms=True)
+                            if any(o[1][0] in ("undecided", "branch") for o in outs):
+                                return ("undecided", f"{name} outside the interpreted subset (n={n}, addresses {d}+{s}): {r[1]!r}")
+                            alts_ = want if isinstance(want, list) else [want]
+                            ok_ = False
+                            for w_ in alts_:
+                                if isinstance(w_, Pred):
+                                    # equal to the reference predicate: asks exactly that predicate and returns its truth value
+                                    ok_ = ok_ or all(len(dec) == 1 and dec[0][0] == repr(("bvpred", w_.key)) and res[0] == "value" and res[1] is (dec[0][1] != w_.negated) for dec, res in outs)
+                                else:
+                                    ok_ = ok_ or all(res[0] == "value" and same(res[1], w_) for dec, res in outs)
+                            cells += 1
+                            counts[name] = counts.get(name, 0) + 1
+                            if not ok_:
+                                dep = sorted({t for dec, res in outs for t, _ in dec})
+                                return ("bad", name, f"{name} is not {DESCR[name]}: for the first {n} octet(s) of a frame with a {d}-octet destination and a {s}-octet source address its value depends on "
+                                        f"{len(dep)} condition(s) on the octets that the layout does not ({'; '.join(x[:60] for x in dep[:2])})", f"n={n} dest={d} src={s}")
+                            continue
+                        if r[0] == "undecided":
+                            return ("undecided", f"{name} outside the interpreted subset (n={n}, addresses {d}+{s}): {r[1]!r}")
                         got = f"raises {r[1]}" if r[0] == "raise" else r[1]
                         alts = want if isinstance(want, list) else [want]
                         cells += 1
@@ -163,11 +192,50 @@ def _frame_worlds(M, FRAME, HEADER):
                         if r[0] == "raise" or not any(same(got, w_) for w_ in alts):
                             return ("bad", name, f"{name} is not {DESCR[name]}: for the first {n} octet(s) of a frame with a {d}-octet destination and a {s}-octet source address it gives "
                                     f"{show(got)} instead of {show(alts[-1])}", f"n={n} dest={d} src={s}")
+                # validity: is_good_ffc asks exactly one predicate (the FCS register test) and is its truth value; is_valid is true exactly when that predicate
+                # and the expected-length predicate both hold -- for every prefix, whatever else the octets are
+                gfn, vfn = M.find_method(FRAME, "is_good_ffc"), M.find_method(FRAME, "is_valid")
+                if gfn is not None and vfn is not None:
+                    gouts = run_all_valuations(A, gfn, [frame], terms=True)
+                    if any(o[1][0] in ("undecided", "branch") for o in gouts):
+                        return ("undecided", f"is_good_ffc outside the interpreted subset (n={n}): {gouts[0][1][1]!r}")
+                    gkeys = sorted({t for dec, res in gouts for t, _ in dec})
+                    cells += 1
+                    counts["is_good_ffc"] = counts.get("is_good_ffc", 0) + 1
+                    gconst = None
+                    gneg = False
+                    if not gkeys and len(gouts) == 1 and gouts[0][1][0] == "value" and isinstance(gouts[0][1][1], bool):
+                        gconst = gouts[0][1][1]  # decided by the octets fed so far (e.g. the initial register)
+                    elif not gkeys and len(gouts) == 1 and gouts[0][1][0] == "value" and isinstance(gouts[0][1][1], Pred):
+                        gkeys, gneg = [repr(("bvpred", gouts[0][1][1].key))], gouts[0][1][1].negated  # returned as a symbolic truth value
+                    elif len(gkeys) != 1 or any(res[0] != "value" or len(dec) != 1 or res[1] is not dec[0][1] for dec, res in gouts):
+                        return ("bad", "is_good_ffc", f"is_good_ffc is not the FCS test alone: for the first {n} octet(s) of a frame its value depends on {len(gkeys)} condition(s) "
+                                f"({'; '.join(k_[:50] for k_ in gkeys[:3])}) / is not the truth value of the register test", f"n={n} dest={d} src={s}")
+                    G = gkeys[0] if gkeys else None
+                    lw = reference("is_expected_length", octs, n, d, s)
+                    vouts = run_all_valuations(A, vfn, [frame], terms=True)
+                    if any(o[1][0] in ("undecided", "branch") for o in vouts):
+                        return ("undecided", f"is_valid outside the interpreted subset (n={n}): {vouts[0][1][1]!r}")
+                    cells += 1
+                    counts["is_valid"] = counts.get("is_valid", 0) + 1
+                    for dec, res in vouts:
+                        dd = dict(dec)
+                        Lk = repr(("bvpred", lw.key)) if isinstance(lw, Pred) else None
+                        extra = [t for t in dd if t not in (G, Lk)]
+                        lval = (dd.get(Lk) != lw.negated) if (isinstance(lw, Pred) and Lk in dd) else (lw if isinstance(lw, bool) else None)
+                        gval = ((dd.get(G) != gneg) if G in dd else None) if G is not None else gconst
+                        if extra:
+                            return ("bad", "is_valid", f"is_valid depends on a condition that is neither the FCS test nor `length field == number of octets` ({extra[0][:60]}), for the first {n} octet(s) of a frame", f"n={n} dest={d} src={s}")
+                        want_v = False if (gval is False or lval is False) else True if (gval is True and lval is True) else None
+                        if res[0] != "value" or want_v is None or res[1] is not want_v:
+                            return ("bad", "is_valid", f"is_valid is not `FCS good and length field == number of octets`: for the first {n} octet(s) of a frame with FCS test {gval} and length test {lval} it gives "
+                                    f"{res[1] if res[0] == 'value' else res!r}", f"n={n} dest={d} src={s}")
     return ("ok", cells, counts)
 
 
-def run_all_valuations(A, fn, args, limit=16):
-    """every outcome of fn(*args) over the truth values of the bit-vector predicates it tests: [(decisions, result)]"""
+def run_all_valuations(A, fn, args, limit=16, terms=False):
+    """every outcome of fn(*args) over the truth values of the bit-vector predicates it tests: [(decisions, result)]; with terms=True a decision is
+    (repr of the predicate, value)"""
     out = []
     work = [[]]
     while work:
@@ -181,14 +249,16 @@ def run_all_valuations(A, fn, args, limit=16):
             k = len(taken)
             v = script[k] if k < len(script) else True
             taken.append(v)
+            asked.append((repr((term.op,) + tuple(term.args)) if hasattr(term, "op") else repr(term), v))
             memo[term] = v
             return v
+        asked = []
         A.oracle = oracle
         try:
             r = A.apply(fn, list(args))
         finally:
             A.oracle = None
-        out.append((tuple(taken), r))
+        out.append((tuple(asked) if terms else tuple(taken), r))
         for k in range(len(script), len(taken)):
             if taken[k] is True:
                 work.append(taken[:k] + [False])
